@@ -26,7 +26,14 @@ class LocalDeme(AbstractDeme):
 
     def run_metaepoch(self, _) -> None:
         x0 = self._sprout_seed.genome
-        fun = self._problem.evaluate
+        # scipy minimizes, so a maximization problem is handed to it with the sign flipped.
+        if self._problem.maximize:
+
+            def fun(x):
+                return -self._problem.evaluate(x)
+
+        else:
+            fun = self._problem.evaluate
 
         result = sopt.minimize(
             fun,
@@ -53,5 +60,5 @@ class LocalDeme(AbstractDeme):
     def _history_callback(self, intermediate_result) -> None:
         # scipy reuses the array behind intermediate_result.x, so keep a copy of the iterate
         ind = Individual(np.copy(intermediate_result.x), problem=self._problem)
-        ind.fitness = intermediate_result.fun
+        ind.fitness = -intermediate_result.fun if self._problem.maximize else intermediate_result.fun
         self._run_history.append(ind)
